@@ -43,6 +43,7 @@ typedef struct args {
 #define F_ZEROLEN_NOOP 0x040000u /* doc: slen==0 is a no-op returning EOK, dest untouched */
 #define F_NLE_DMAX  0x080000u  /* constraint: n <= dmax */
 #define F_DMAX_ZERO_OK 0x100000u /* dmax==0 is not a violation */
+#define F_NONULL    0x200000u  /* doc gives no failure indication for NULL: never pass NULL */
 
 enum { OUT_NONE, OUT_INT, OUT_SIZE, OUT_PTR };
 enum { RK_ERRNO, RK_BOOL, RK_LEN, RK_PTR_ERRP };
